@@ -574,9 +574,13 @@ func runHarness(ld *Loaded, hs *HarnessSpec, tier string, known map[string]bool,
 		}
 		sort.Strings(keys)
 		in.pathID = strings.Join(keys, ",")
+		if os.Getenv("GOSMT_DEBUG") != "" && hr.Runs < 400 {
+			fmt.Printf("DEBUG run %d spec %s\n", hr.Runs, in.pathID)
+		}
 		var buf []*Obligation
 		in.emit = func(ob *Obligation) { buf = append(buf, ob) }
 		aborted := false
+		abortedAt := -1
 		func() {
 			defer func() {
 				if r := recover(); r != nil {
@@ -588,6 +592,7 @@ func runHarness(ld *Loaded, hs *HarnessSpec, tier string, known map[string]bool,
 							return
 						}
 						in.taken[e.k] = 1
+						abortedAt = e.k
 						queue = append(queue, in.specWith(e.k, 1), in.specWith(e.k, 0))
 					case unsupported:
 						hr.Unsupported = appendNote(hr.Unsupported, e.what+" @ "+in.site(in.cur))
@@ -603,8 +608,19 @@ func runHarness(ld *Loaded, hs *HarnessSpec, tier string, known map[string]bool,
 		}()
 		if aborted {
 			hr.Aborted++
-			// alternatives of the decisions taken before the abort point stay scheduled
-			queue = append(queue, in.pending...)
+			// alternatives of decisions taken BEFORE the abort point stay scheduled; those of later
+			// decisions are rediscovered under each forced branch of the aborted decision
+			for _, ps := range in.pending {
+				mx := -1
+				for kk := range ps.forced {
+					if kk > mx {
+						mx = kk
+					}
+				}
+				if mx < abortedAt {
+					queue = append(queue, ps)
+				}
+			}
 		} else {
 			for _, ob := range buf {
 				if old, ok := seenOb[ob.Key]; ok && ob.Key != "" {
